@@ -327,7 +327,7 @@ def scene_rev(pair, axis, seed, special=False, law=None, form="force", par=0, l_
     return sc
 
 
-def rev_state(sc, letter, angle, seed, t, scale2=None):
+def rev_state(sc, letter, angle, seed, t, scale2=None, tilt=None):
     """State on the joint manifold: carrier 1 at its state letter, carrier 2 rotated about the joint
     axis by `angle` through the joint point.  Returns per-carrier q parts.  If carrier 2 is a frame
     (prescribed), carrier 1 is placed instead (rotation by -angle about the same axis)."""
@@ -342,6 +342,11 @@ def rev_state(sc, letter, angle, seed, t, scale2=None):
         rJ = r1 + A1 @ m["B1_r"]
         pJ1 = quat_mul(p1u, m["pK1J"])
         pJ2 = quat_mul(pJ1, axis_angle_quat(ax, angle))
+        if tilt is not None:
+            # OFF the joint manifold: additional tilt about an in-plane axis of the joint frame (tilt = (axis index, angle))
+            et = np.zeros(3)
+            et[tilt[0]] = 1.0
+            pJ2 = quat_mul(pJ2, axis_angle_quat(et, tilt[1]))
         p2u = quat_mul(pJ2, qconj(m["pK2J"]))
         s2 = scale2 if scale2 is not None else (1.0 if letter == 0 else 0.8 + 0.5 * ((0.37 * letter + 0.11 * seed) % 1.0))
         r2 = rJ - quat_to_A(p2u) @ m["B2_r"]
@@ -352,6 +357,10 @@ def rev_state(sc, letter, angle, seed, t, scale2=None):
     rJ = r2 + quat_to_A(p2u) @ m["B2_r"]
     pJ2 = quat_mul(p2u, m["pK2J"])
     pJ1 = quat_mul(pJ2, axis_angle_quat(ax, -angle))
+    if tilt is not None:
+        et = np.zeros(3)
+        et[tilt[0]] = 1.0
+        pJ1 = quat_mul(pJ1, axis_angle_quat(et, tilt[1]))
     p1u = quat_mul(pJ1, qconj(m["pK1J"]))
     s1 = 1.0 if letter == 0 else 0.8 + 0.5 * ((0.37 * letter + 0.11 * seed) % 1.0)
     r1 = rJ - quat_to_A(p1u) @ m["B1_r"]
